@@ -96,6 +96,8 @@ def _lay_shrink(case):
     while i < len(t):
         if t[i] in ('p', 'r'):
             evs.append(t[i:i + 3]); i += 3
+        elif t[i] == 'fk':
+            evs.append(t[i:i + 4]); i += 4
         else:
             evs.append(t[i:i + 2]); i += 2
     for k in range(len(evs)):
@@ -133,7 +135,24 @@ def _lay_props(modules, rule, oracle_pass, nontrivial=None, extra_trusted=None, 
     return d
 
 
+def _crash_or_ok(out):
+    return 'fail crash: ' + out if out.startswith('crash') else 'ok'
+
+
+def _kan_props(modules, rule, oracle_pass=None, oracle_project=None, nontrivial=None):
+    d = _lay_props(modules, rule, oracle_pass, nontrivial)
+    if oracle_project:
+        d['oracle_project'] = oracle_project
+    d['trusted_base'] = d['trusted_base'] + ['Model/Kanata.lean as a transcription of src/kanata/mod.rs, key_repeat.rs, caps_word.rs, output_logic.rs (checked differentially on OS events with virtual-time stamps, the idle flag and the layout digest)']
+    d['assumptions'] = ['configurations using sequence mode, dynamic macros, zippychord, chords v2, overrides, live reload, cmd/clipboard/delay actions are outside the kanata-level model (answered unsupported, counted in the distribution)',
+                        'mouse-move distances (floating point) are not modelled: move events carry the direction only']
+    return d
+
+
 PROPS = {
+    'C02': _kan_props(['KVerif.Props.C02'],
+        'hand-written capacity-edge shapes (11-14 held layers, 18 stacked one-shot layers, repeat re-entering its container, 11 concurrent tap-holds + queue flood, every valid key code once) plus random whole-grammar configurations (incl. custom actions) driven by histories that are not physically consistent (repeated presses, stray releases, repeat and tap events, unmapped codes, floods of 70-200 events); non-trivial = output changed at least twice; oracle: every configuration the real parser accepts must satisfy CfgWF (evaluated by the driver on the serialised parse result) and must be processed without panic/abort/hang',
+        None, _crash_or_ok),
     'C05': _lay_props(['KVerif.Props.C05'],
         'lone tap-hold key: 7 variants x T in {2,5,200} x concurrent on/off x tap-repress window {0,3} x hold durations {0,1,T-2..T+2}; exhaustive physically consistent schedules (<= N events) over the tap-hold key and two plain keys with gaps {0,1,T-1,T,T+1}; random interleavings of two tap-hold keys with plain keys incl. bursts; non-trivial = output changed at least twice; distinct = distinct case line. Oracle on the implementation trace: exactly one tap/hold/timeout marker effect per press, decision kind and tick for a lone key (closed form), plain keys output in press order',
         'C05o'),
